@@ -40,7 +40,7 @@ def run_trace(ctx, events, tag, shards=8):
 
 def tokens_with_depth(text):
     """token spellings of a rendered form (renderer output: no comments, strings without newlines)"""
-    return re.findall(r'"(?:[^"\\]|\\.)*"|#\\.|#\(|[()\']|[^\s()\'"]+', text)
+    return re.findall(r'"(?:[^"\\]|\\.)*"|\|[^|]*\||#\\.|#\(|[()\']|[^\s()\'"|]+', text)
 
 
 def split_lines(rng, text):
@@ -151,6 +151,11 @@ def run(ctx):
             # a string literal that spans a line break inside a list (the newline is part of the string), parentheses inside it
             k = rng.randrange(len(texts_) + 1)
             texts_ = texts_[:k] + ['(define str%d "a(b %s\n c)" )' % (rng.randint(1, 3), rng.choice(["", ")", "((", ";x"])), "(list 1 str%d)" % rng.randint(1, 3)] + texts_[k:]
+        if rng.random() < 0.4:
+            # a |quoted identifier| that spans a line break inside a list that is still open (the newline is part of the name)
+            k = rng.randrange(len(texts_) + 1)
+            texts_ = texts_[:k] + ["(define sym%d '|two%s\nlines%s|)" % (rng.randint(1, 3), rng.choice(["", " (", ")", '"']), rng.choice(["", ")", " ;"])),
+                                   "(list 2 (eqv? sym%d 'two) 3)" % rng.randint(1, 3)] + texts_[k:]
         if rng.random() < 0.35:
             # values whose echo is empty or ends in white space: the echo is the value's text, all of it
             k = rng.randrange(len(texts_) + 1)
